@@ -4,6 +4,7 @@ import (
 	"encoding/json"
 	"fmt"
 	"os"
+	"os/exec"
 	"path/filepath"
 	"strconv"
 
@@ -12,12 +13,17 @@ import (
 
 // emitPart runs Engine E (cmd/emith): the root package's EmitterStack and
 // NopEmitter observed directly at their API.
-func emitPart(c *ctx) map[string]interface{} {
+func emitPart(c *ctx) map[string]interface{} { return emitPartRace(c, false) }
+
+// emitPartRace: with race set, Engine E is built with -race (concurrent
+// derivation of stacks from a shared base is part of its workload) and every
+// report of the race detector is a violation of the calling check's property.
+func emitPartRace(c *ctx, race bool) map[string]interface{} {
 	if violationsSoFar(c) || (c.RS != nil && c.RS.Engine != "E") {
 		return nil
 	}
 	work := vc.WorkDir("emit")
-	bin := vc.BuildHarness(work, "./cmd/emith", "emith", false, "")
+	bin := vc.BuildHarness(work, "./cmd/emith", "emith", race, "")
 	type res struct {
 		Cases         int `json:"cases"`
 		Stacks        int `json:"stacks_built"`
@@ -39,14 +45,28 @@ func emitPart(c *ctx) map[string]interface{} {
 	if c.RS != nil {
 		n = c.RS.ECase + 1
 	}
-	o, err := vc.Run(work, vc.Env(), bin, "-seed", strconv.FormatUint(c.Seed, 10), "-cases", strconv.Itoa(n), "-out", out)
+	env := vc.Env()
+	if race {
+		n /= 2
+		env = append(env, "GORACE=halt_on_error=0 log_path="+filepath.Join(work, "race"))
+	}
+	o, err := vc.Run(work, env, bin, "-seed", strconv.FormatUint(c.Seed, 10), "-cases", strconv.Itoa(n), "-out", out)
+	if race {
+		defer func() { collectRaces(c, work, "E") }()
+		if ee, ok := err.(*exec.ExitError); ok && ee.ExitCode() == 66 {
+			err = nil // reports are in the race log; the results file is complete
+		}
+	}
 	var r res
 	b, rerr := os.ReadFile(out)
 	if err != nil || rerr != nil || json.Unmarshal(b, &r) != nil {
-		c.R.Add(vc.Violation{Property: "C18", Case: "emitter-stack", Why: "the emitter harness died: " + firstLines(o, 6), Witness: map[string]interface{}{"engine": "E", "seed": c.Seed, "output": vc.Tail(o, 4000)}})
+		c.R.Add(vc.Violation{Property: c.Prop, Case: "emitter-stack", Why: "the emitter harness died: " + firstLines(o, 6), Witness: map[string]interface{}{"engine": "E", "seed": c.Seed, "output": vc.Tail(o, 4000)}})
 		return nil
 	}
 	for _, v := range r.Viols {
+		if c.Prop != "C18" {
+			continue // the event oracle belongs to C18; under C12 only race reports count
+		}
 		c.R.Add(vc.Violation{Property: "C18", Case: fmt.Sprintf("emitter-stack#%d", v.Case), Why: v.Why,
 			Witness: map[string]interface{}{"engine": "E", "seed": c.Seed, "case": v.Case, "construction": v.Desc}})
 	}
